@@ -421,6 +421,13 @@ DOUBLE_REV = [
     ("rev,rposition", "rev(), rposition(|x| *x % 2 == 0)", "rev().rposition(|x| *x % 2 == 0)"),
     ("rev,copied,rev,rfind", "rev(), copied(), rev(), rfind(|x| *x > 1)", "rev().copied().rev().rfind(|x| *x > 1)"),
     ("rev,rev,rev,nth", "rev(), rev(), rev(), nth(1)", "rev().rev().rev().nth(1)"),
+    # a state-carrying adapter between the two reversals
+    ("rev,take,rev,collect", "rev(), take(3), rev(), for_each(|e| v.push(*e))", "rev().take(3).rev().copied().collect::<Vec<u32>>()"),
+    ("rev,skip,rev,collect", "rev(), skip(1), rev(), for_each(|e| v.push(*e))", "rev().skip(1).rev().copied().collect::<Vec<u32>>()"),
+    ("rev,enumerate,rfold", "rev(), enumerate(), rfold(0u32, |acc, (_, x)| acc.wrapping_mul(10).wrapping_add(*x))", "rev().enumerate().rfold(0u32, |acc, (_, x)| acc.wrapping_mul(10).wrapping_add(*x))"),
+    ("rev,zip,rfind", "rev(), zip(0u32..2), rfind(|(x, _)| **x > 1)", "rev().zip(0u32..2).rfind(|(x, _)| **x > 1)"),
+    ("rev,skip_while,rposition", "rev(), skip_while(|x| **x > 4), rposition(|x| *x % 2 == 0)", "rev().skip_while(|x| **x > 4).collect::<Vec<_>>().into_iter().rposition(|x| *x % 2 == 0)"),
+    ("rev,take_while,rev,next", "rev(), take_while(|x| **x > 1), rev(), next()", "rev().take_while(|x| **x > 1).collect::<Vec<_>>().into_iter().rev().next()"),
 ]
 
 DOUBLE_REV_TEMPLATE = r"""
@@ -463,6 +470,71 @@ def run_double_reversal(cx, out, hist):
         hist["double-reversal/compiles"] = hist.get("double-reversal/compiles", 0) + 1
         if diffs:
             out.fail("double-reversal-compiles-and-differs-from-std:" + name, "iterator DSL", "eval!(xs, %s) | %s" % (k, diffs[0][:300]), "%d of 5 inputs differ" % len(diffs), "std: xs.iter()." + s, "generated-program", cmd=outp, source=src)
+    return n
+
+
+# ---------------------------------------------------------------- argument expressions are evaluated once
+
+ARGS_TEMPLATE = r"""
+#![allow(unused, clippy::all)]
+use std::cell::Cell;
+/// the n-th `tick` call of an expression appends n's position label: the trace of `f(tick(a), tick(b))` is 12
+fn tick<T>(c: &Cell<u32>, v: T) -> T { c.set(c.get() * 10 + 1); v }
+fn tick2<T>(c: &Cell<u32>, v: T) -> T { c.set(c.get() * 10 + 2); v }
+macro_rules! both {
+    ($name:expr, $c:ident, $k:expr, $s:expr) => {{
+        let $c = Cell::new(0u32); let k = ($k, $c.get());
+        let $c = Cell::new(0u32); let s = ($s, $c.get());
+        unsafe { EVALS += 1; }
+        if k != s { println!("FAIL\t{}\t{:?}\t{:?}", $name, k, s); }
+    }};
+}
+static mut EVALS: u64 = 0;
+fn main() {
+    let all: [&[u32]; 4] = [&[], &[5], &[1, 2, 3], &[4, 1, 6, 0, 3, 9]];
+    for xs in all { for n in 0..4usize {
+        // the value arguments of adapters and consumers are ordinary expressions: std evaluates each exactly once
+        // (when the adapter is built), whatever the number of items
+        both!("take(arg)", c, konst::iter::eval!(xs, take(tick(&c, n)), count()), xs.iter().take(tick(&c, n)).count());
+        both!("skip(arg)", c, konst::iter::eval!(xs, skip(tick(&c, n)), count()), xs.iter().skip(tick(&c, n)).count());
+        both!("nth(arg)", c, konst::iter::eval!(xs, copied(), nth(tick(&c, n))), xs.iter().copied().nth(tick(&c, n)));
+        both!("skip(arg),take(arg)", c, konst::iter::eval!(xs, skip(tick(&c, 1)), take(tick2(&c, n)), copied(), fold(0u32, |a, x| a * 10 + x)), xs.iter().skip(tick(&c, 1)).take(tick2(&c, n)).copied().fold(0u32, |a, x| a * 10 + x));
+        both!("fold(init arg)", c, konst::iter::eval!(xs, copied(), fold(tick(&c, n as u32), |a, x| a.wrapping_mul(3).wrapping_add(x))), xs.iter().copied().fold(tick(&c, n as u32), |a, x| a.wrapping_mul(3).wrapping_add(x)));
+        both!("rfold(init arg)", c, konst::iter::eval!(xs, copied(), rfold(tick(&c, n as u32), |a, x| a.wrapping_mul(3).wrapping_add(x))), xs.iter().copied().rfold(tick(&c, n as u32), |a, x| a.wrapping_mul(3).wrapping_add(x)));
+        both!("zip(arg)", c, konst::iter::eval!(xs, copied(), zip(tick(&c, 10u32..12)), count()), xs.iter().copied().zip(tick(&c, 10u32..12)).count());
+        both!("source expression", c, konst::iter::eval!(tick(&c, xs), copied(), position(|x| x == 6)), tick(&c, xs).iter().copied().position(|x| x == 6));
+        both!("for_each! source and take(arg)", c, { let mut v = Vec::new(); konst::iter::for_each!{x in tick(&c, xs), take(tick2(&c, n)) => v.push(*x);} v }, tick(&c, xs).iter().take(tick2(&c, n)).copied().collect::<Vec<u32>>());
+        both!("range source", c, konst::iter::eval!(tick(&c, 0..n), rev(), take(tick2(&c, 2)), count()), tick(&c, 0..n).rev().take(tick2(&c, 2)).count());
+        // (the DSL evaluates a consumer's value argument before the adapters' arguments; only the number of
+        // evaluations is compared across that boundary, the order among source and adapters is compared above)
+        both!("source, zip(arg), fold(init arg)", c, konst::iter::eval!(tick(&c, xs), copied(), zip(tick(&c, 10u32..12)), fold(tick(&c, 1u32), |a, (x, y)| a.wrapping_mul(7).wrapping_add(x + y))), tick(&c, xs).iter().copied().zip(tick(&c, 10u32..12)).fold(tick(&c, 1u32), |a, (x, y)| a.wrapping_mul(7).wrapping_add(x + y)));
+    }}
+    println!("N\t{}", unsafe { EVALS });
+}
+"""
+
+
+def run_argument_expressions(cx, out, hist):
+    src = cx.write("c10_args.rs", ARGS_TEMPLATE)
+    rc, se, outp = cx.compile(src)
+    if rc is None:
+        raise kv.Inconclusive("watchdog: rustc did not finish on %s" % src)
+    if rc != 0:
+        out.fail("compile-error:argument-expression-program", "iterator DSL", src, first_error(se)[:300], "side-effecting argument expressions are valid arguments", "rustc", cmd="rustc " + src, source=src)
+        return 0
+    rc2, so, se2 = cx.run(outp, timeout=600)
+    if rc2 != 0:
+        raise kv.Inconclusive("generated program %s exited with %s: %s" % (outp, rc2, (se2 or "")[-300:]))
+    n = 0
+    seen = set()
+    for line in (so or "").splitlines():
+        f = line.split("\t")
+        if f[0] == "FAIL" and f[1] not in seen:
+            seen.add(f[1])
+            out.fail("argument-expression-not-evaluated-once:" + f[1], "iterator DSL", f[1], "(result, evaluations of the argument expressions) = " + f[2][:200], f[3][:200], "generated-program", cmd=outp, source=src)
+        elif f[0] == "N":
+            n = int(f[1])
+    hist["argument-expression-programs"] = n
     return n
 
 
@@ -597,6 +669,7 @@ def run(out, tier, seed):
                     out.failures.append({"sig": exp, "api": "collect_const!", "input": "cc program %d input %d: %s | %s" % (pid, ii, ", ".join([a.k for a in p.ads]), detail[:300]), "got": "equals the hoisted-reversal chain instead of std", "want": "std chain",
                                          "engine": "generated-program", "variant": "", "sub": "", "cmd": b, "count_for_sig": 1})
     evals += run_double_reversal(cx, out, hist)
+    evals += run_argument_expressions(cx, out, hist)
     out.add_counts("generated-programs", evals, "c10-programs", nontrivial, samples,
                    rule="one evaluation = one generated program (konst eval!/for_each!/collect_const! chain) on one input, compared with the identical std method chain and, when the chain reverses, with the std chain whose reversal is hoisted to the source (three-way oracle S/H/K1, DESIGN.md §6/C10); distinct_nontrivial = number of distinct generated programs with at least one adapter",
                    exhaustive="every type-correct chain of depth <= %d (quick tier: plus every depth-3 chain containing rev() with the for_each/fold consumers) over {copied,map,map-to-pair,filter,filter_map,flat_map,flatten,enumerate,zip(shorter|longer),skip,take,skip_while,take_while,rev} x 3 sources (slice, range, nested slice+flatten) x every consumer (%d programs) + %d seeded random chains of depth %s; each over all arrays of length <= 4 over {0,1,4,6} (341; nested source: 91) x n in 0..=3; %d collect_const! programs x 4-6 const inputs" % (3 if thorough else 2, exhaustive_n, nrand, "4-6" if thorough else "3-5", len(ccs)),
